@@ -54,7 +54,7 @@ func rawTexts(o *opReq) []rawText {
 		{"number-spellings", `{"query":"query Q($f: Float, $g: Float, $h: Float) { echoFloat(x: $f) a: echoFloat(x: $g) b: echoFloat(x: $h) }","variables":{"f":1E+2,"g":-0.0e-0,"h":0.5E-1,"i":123456789012345678901234567890,"j":1.7976931348623157e308,"k":4.9e-324,"l":2.2250738585072011e-308,"m":-0,"n":10.0e00}}`},
 		{"inner-space", "{\n\t\"query\"\r:\n" + quoteJSON(o.Query) + "\t,\"variables\" : { \"s\" : [ ] , \"t\":{ } } }\r\n"},
 		{"empty-object", rng.Pick(rng.New(uint64(len(o.OpName))), []string{"{}", "{ }", " {\n}\t"})},
-		{"dup-null-then-value", `{"query":null,"variables":null,"query":` + quoteJSON(o.Query) + `,"variables":{"s":"n"},"variables":{"t":1}}`},
+		{"dup-null-then-value", `{"query":null,"variables":null,"query":` + quoteJSON(o.Query) + `,"variables":{"s":"n"},"variables":{"t":1},"operationName":` + quoteJSON(o.OpName) + `}`},
 		// ---- texts encoding/json rejects ----
 		{"bad-hex", rawBody(o, ` #\u12G4`, "variables", "operationName")},
 		{"bad-hex-after-surrogate", rawBody(o, ` #\ud800\u12`, "variables", "operationName")},
